@@ -97,4 +97,9 @@ def run (s : H) : List Op → List Resp
   | [] => []
   | op :: ops => (step s op).2 :: run (step s op).1 ops
 
+/-- The log (newest first) of the operations and the model's answers, starting from log `h`. -/
+def hist (s : H) (h : Hist) : List Op → Hist
+  | [] => h
+  | op :: ops => hist (step s op).1 ((op, (step s op).2) :: h) ops
+
 end Health
